@@ -556,7 +556,7 @@ def step (st : CacheState) : Op → CacheState × Outcome
       | some f =>
         if f.resolver.isSome && !allow && !same then (st1, .valueError)
         else ({ st1 with schema := setFieldResolver st.schema tn fn r, isValid := false }, .ok)
-  | .registerSubscription tn fn r allow _ =>
+  | .registerSubscription tn fn r allow same =>
     if st.regSubs.contains (tn, fn) && !allow then (st, .valueError) else
     let st1 := { st with regSubs := (tn, fn) :: st.regSubs }
     match st.schema.findType tn with
@@ -565,10 +565,9 @@ def step (st : CacheState) : Op → CacheState × Outcome
       if t.kind != .object then (st1, .schemaError) else
       match fieldMap t fn with
       | none => (st1, .schemaError)
-      | some _ =>
-        -- `field.subscription_resolver` is not part of the description: on schemas whose fields start
-        -- without one, the "already has a subscription" test is subsumed by the registry test above
-        ({ st1 with schema := setFieldSubscription st.schema tn fn r, isValid := false }, .ok)
+      | some f =>
+        if f.subscriptionResolver.isSome && !allow && !same then (st1, .valueError)
+        else ({ st1 with schema := setFieldSubscription st.schema tn fn r, isValid := false }, .ok)
   | .replaceTypes entries dirEntries healed =>
     replaceStep replaceAccumulates replaceAtomic replaceDirectivesBust st entries dirEntries healed
 
